@@ -21,6 +21,7 @@ package main
 //          getupvalue/setupvalue at every index (Go API and debug.*), open and closed upvalues.
 
 import (
+	"sync/atomic"
 	"encoding/hex"
 	"fmt"
 	"os"
@@ -1310,7 +1311,7 @@ func runProgram(src string, recs []*probeRec) (out []string) {
 	select {
 	case <-done:
 		L.Close()
-	case <-time.After(20 * time.Second):
+	case <-time.After(120 * time.Second):
 		return []string{"X timeout => program"}
 	}
 	return w.out
@@ -1758,6 +1759,10 @@ func execC17M(ops []Op) []string {
 			out = append(out, execLines(op)...)
 		case "upord":
 			out = append(out, execUpord(op)...)
+		case "linetab":
+			out = append(out, execLineTab(op)...)
+		case "errline":
+			out = append(out, execErrLine(op)...)
 		}
 	}
 	return out
@@ -1783,6 +1788,13 @@ func dumpC17M(spec string) {
 		src, sites, _ := genLines(seed, kind, mode, layout, nl, map[int]int{})
 		printNumbered(src)
 		fmt.Printf("%+v\n", sites)
+	case "linetab", "errline":
+		layout, _ := strconv.Atoi(args[1])
+		seed, _ := strconv.ParseUint(args[2], 10, 64)
+		if p, _ := parseMProg(args[3:]); p != nil {
+			src, _ := renderLineTab(p, layout, seed)
+			printNumbered(src)
+		}
 	case "upord":
 		if depth, mode, seed, ts, pre, post, ok := uoParse(Op{Args: args}); ok {
 			src, probes, bad := uoGenProgram(depth, mode, seed, ts, pre, post)
@@ -1820,8 +1832,10 @@ func runC17M(run *Run) {
 	if run.Tier == "thorough" {
 		nSim, nProg, nChain, nLines = 30000, 3000, 3000, 12
 	}
-	run.Rule = "sim: random block-structured event lists (declare/begin/end/mark-upvalue/instr, for-loop shapes, declaration-after-inner-block shapes, 8% unbalanced) executed on the real funcContext + LFunction.LocalName at every pc; prog: generated Lua programs (nested blocks, while/repeat/if/numeric+generic for, shadowing, local functions with upvalues, methods, varargs) in 6 layouts x 4 line-terminator styles with getlocal/setlocal/getupvalue/setupvalue/getinfo probes at levels 0,1,2 (Go API and debug library); chain: call/tail/pcall/coroutine/metamethod chains x GetStack/where at every level x error(msg, level); lines: every failing-statement kind x 3 modes x layouts, span oracle + shift-invariance (Impl vs Impl); upord: upvalue ORDER = order of first mention in the function's source text: functions built from statement templates with a hole in every syntactic position (assignment targets single/multiple, table-store object/key/value, right-hand sides, operator operands, call/method receiver and arguments, conditions, loop bounds/explists, constructors, return lists, closures nested 1-3 deep, shadowing locals/parameters/loop variables), holes filled from 6 outer locals by identity/reverse/random permutations or with repetition; every template alone x 3 fills x {f under the declaring block, f inside a wrapper function that is probed too} (exhaustive test), + pairs/triples (thorough: all ordered pairs); getupvalue at -1..n+2 and setupvalue at every index through the Go API and debug.*, on open and on closed upvalues, values and exactly-one-variable-changed seen through a reader closure sharing the variables; distinct = distinct case skeletons"
+	run.Rule = "sim: random block-structured event lists (declare/begin/end/mark-upvalue/instr, for-loop shapes, declaration-after-inner-block shapes, 8% unbalanced) executed on the real funcContext + LFunction.LocalName at every pc; prog: generated Lua programs (nested blocks, while/repeat/if/numeric+generic for, shadowing, local functions with upvalues, methods, varargs) in 6 layouts x 4 line-terminator styles with getlocal/setlocal/getupvalue/setupvalue/getinfo probes at levels 0,1,2 (Go API and debug library); chain: call/tail/pcall/coroutine/metamethod chains x GetStack/where at every level x error(msg, level); lines: every failing-statement kind x 3 modes x layouts, span oracle + shift-invariance (Impl vs Impl); upord: upvalue ORDER = order of first mention in the function's source text: functions built from statement templates with a hole in every syntactic position (assignment targets single/multiple, table-store object/key/value, right-hand sides, operator operands, call/method receiver and arguments, conditions, loop bounds/explists, constructors, return lists, closures nested 1-3 deep, shadowing locals/parameters/loop variables), holes filled from 6 outer locals by identity/reverse/random permutations or with repetition; every template alone x 3 fills x {f under the declaring block, f inside a wrapper function that is probed too} (exhaustive test), + pairs/triples (thorough: all ordered pairs); getupvalue at -1..n+2 and setupvalue at every index through the Go API and debug.*, on open and on closed upvalues, values and exactly-one-variable-changed seen through a reader closure sharing the variables; distinct = distinct case skeletons" +
+		"; linetab: programs of the C01M fragment (conditions, logical/relational/arithmetic operators, unary minus, #, .., local and multiple assignment, if/while/repeat/return: bounded-exhaustive condition trees x 12 contexts, every assignment shape, arithmetic operand classes, random programs and deep expressions, chunk shapes around the final RETURN) rendered token by token in 6 multi-line layouts (one statement per line, one token per line, random breaks, breaks + blank lines + line and block comments, one line, breaks inside expressions only; operands with 0/1/2 pairs of parentheses): the real compiler's FunctionProto.DbgSourcePositions compared ENTRY BY ENTRY with the Lean line-table model compLines (Model/CompileLines.lean), and every entry of the implementation's table checked to lie in the token-line span of the statement that wrote it; errline: the same rendered programs RUN on the real VM under valuations that make operations raise: the line named by the run-time error message = compLines[pc] for the pc at which the MiniVM on the model's code faults, and within the span of the statement that wrote that instruction"
 	run.Assume = []string{
+		"linetab: token lines are >= 1 and never decrease in source order (the renderer's own bookkeeping; LastLine()==0 means `not set`); the final RETURN's entry (line of the last statement + 1, not a token line) is compared with the model only",
 		"the Model is the code AFTER fixes/C17-local-scope-ranges.diff and fixes/C17-findlocal-nonpositive-index.diff (harness built against a worktree with both applied)",
 		"only NAMED variables count (names starting with '(' are internal); CompatVarArg=true declares the named local `arg` in vararg functions with a parent",
 		"levels across lost tail-call frames are compared against the Model only (the property does not define them)",
@@ -1873,8 +1887,24 @@ func runC17M(run *Run) {
 	for i, a := range upordCases(root, run.Tier == "thorough") {
 		cases = append(cases, Case{Idx: 400000 + i, Ops: []Op{{Args: a}}})
 	}
+	if os.Getenv("C17_NO_LINETAB") == "" { // (switch for timing the family; never set by ./check)
+		for i, a := range lineTabCases(root.Fork(777_000_017), run.Tier == "thorough") {
+			cases = append(cases, Case{Idx: 600000 + i, Ops: []Op{{Args: a}}})
+		}
+		for i, a := range errLineCases(root.Fork(777_000_018), run.Tier == "thorough") {
+			cases = append(cases, Case{Idx: 900000 + i, Ops: []Op{{Args: a}}})
+		}
+	}
 	runCases(run, cases, execC17M, classifyTagged)
+	run.Hist["errline:run-time-error-with-line"] = int(atomic.LoadInt64(&ltErrWithLine))
+	run.Hist["errline:run-time-error-without-position"] = int(atomic.LoadInt64(&ltErrNoLine))
+	run.Hist["errline:no-error"] = int(atomic.LoadInt64(&ltNoErr))
+	run.Hist["errline:not-compared(unsafe number<->string conversion)"] = int(atomic.LoadInt64(&ltSkippedConv))
 	for _, c := range cases {
+		if a := c.Ops[0].Args; a[0] == "linetab" || a[0] == "errline" {
+			run.Distinct["linetab "+a[1]+" "+mechSkeleton([]Op{{Args: a[3:]}})] = true
+			continue
+		}
 		if a := c.Ops[0].Args; a[0] == "upord" && len(a) >= 7 {
 			run.Distinct[strings.Join([]string{a[0], a[1], a[2], a[4], a[5], a[6]}, " ")] = true
 			continue
